@@ -1,10 +1,12 @@
 package work
 
 import (
+	"encoding/binary"
 	"fmt"
 	"math/rand/v2"
 	"reflect"
 	"sync"
+	"time"
 
 	"github.com/philpearl/plenc"
 
@@ -232,7 +234,128 @@ func c10DupKeys(c *core.Ctx, idx int) {
 	}
 }
 
+type c10TimeInner struct {
+	T time.Time `plenc:"1"`
+	X int       `plenc:"2"`
+}
+
+type c10Times struct {
+	T  time.Time            `plenc:"1"`
+	P  *time.Time           `plenc:"2"`
+	S  c10TimeInner         `plenc:"3"`
+	PP *c10TimeInner        `plenc:"4"`
+	M  map[string]time.Time `plenc:"5"`
+	Z  int                  `plenc:"6"`
+}
+
+// c10PartialTimes: times as other writers of the format put them on the wire - a seconds or a
+// nanoseconds part that is zero left out, or both - decoded into targets that hold other, non-zero
+// times in every position: a time that is present in the data replaces the old one whole. The
+// messages are assembled by hand; the reference decoder says what they hold.
+func c10PartialTimes(c *core.Ctx, idx int) {
+	rec := c.Rec
+	r := c.Rand(idx)
+	cfg := instCfgs()[(idx/13)%4]
+	name := cfgName(cfg)
+	p := instNew(cfg)
+	uv := func(b []byte, v uint64) []byte { return binary.AppendUvarint(b, v) }
+	zz := func(v int64) uint64 {
+		if cfg.ProtoTime {
+			return uint64(v)
+		}
+		return uint64(v<<1) ^ uint64(v>>63)
+	}
+	body := func(sec, nanos int64, parts int) []byte {
+		var b []byte
+		if parts&1 != 0 {
+			b = uv(append(b, 0x08), zz(sec))
+		}
+		if parts&2 != 0 {
+			if cfg.ProtoTime {
+				b = uv(append(b, 0x10), uint64(uint32(nanos)))
+			} else {
+				b = uv(append(b, 0x10), zz(nanos))
+			}
+		}
+		return b
+	}
+	framed := func(b []byte, idx int, inner []byte) []byte {
+		b = uv(b, uint64(idx)<<3|2)
+		b = uv(b, uint64(len(inner)))
+		return append(b, inner...)
+	}
+	for round := 0; round < 24; round++ {
+		sec := []int64{1, 1700000000, -1, 253402300799, 86400, -62135596800 + 1}[r.IntN(6)]
+		nanos := []int64{1, 999999999, 500000000, 123456789}[r.IntN(4)]
+		parts := []int{1, 2, 0, 3}[round%4]
+		tb := body(sec, nanos, parts)
+		var data []byte
+		var where []string
+		if r.IntN(2) == 0 {
+			data = framed(data, 1, tb)
+			where = append(where, "T")
+		}
+		if r.IntN(2) == 0 {
+			data = framed(data, 2, tb)
+			where = append(where, "P")
+		}
+		if r.IntN(2) == 0 {
+			data = framed(data, 3, framed(nil, 1, tb))
+			where = append(where, "S.T")
+		}
+		if r.IntN(2) == 0 {
+			data = framed(data, 4, framed(nil, 1, tb))
+			where = append(where, "PP.T")
+		}
+		if r.IntN(2) == 0 {
+			entry := framed(framed(nil, 1, []byte("k")), 2, tb)
+			if cfg.ProtoArrays {
+				data = framed(data, 5, entry)
+			} else {
+				data = uv(data, 5<<3|3)
+				data = uv(data, 1)
+				data = uv(data, uint64(len(entry)))
+				data = append(data, entry...)
+			}
+			where = append(where, "M[k]")
+		}
+		data = append(data, 0x30, 0x02)
+		old := time.Unix(1234567890+int64(r.IntN(1000)), int64(1+r.IntN(999999998))).UTC()
+		old2 := old.Add(time.Hour)
+		for _, shape := range []string{"fresh", "populated"} {
+			prior := c10Times{}
+			if shape == "populated" {
+				prior = c10Times{T: old, P: &old2, S: c10TimeInner{T: old, X: 3}, PP: &c10TimeInner{T: old2, X: 4}, M: map[string]time.Time{"k": old, "other": old2}, Z: 9}
+			}
+			got, want := reflect.New(reflect.TypeOf(prior)), reflect.New(reflect.TypeOf(prior))
+			got.Elem().Set(model.DeepCopy(reflect.ValueOf(prior)))
+			want.Elem().Set(model.DeepCopy(reflect.ValueOf(prior)))
+			if err := cfg.Decode(want.Elem(), data); err != nil {
+				rec.Count("partial_time_messages_the_reference_rejects", 1)
+				break
+			}
+			err, pn := unmarshal(p, data, got.Interface())
+			rec.Eval(1)
+			what := []string{"neither part", "seconds only", "nanoseconds only", "both parts"}[parts]
+			if err != nil || pn != "" {
+				rec.Violation("merge", fmt.Sprintf("[%s] times written with %s (at %v) into a %s target are rejected: %v %s\n  bytes %s", name, what, where, shape, err, trunc1(pn), hexHead(data)), nil)
+				return
+			}
+			if d := model.Diff(want.Elem(), got.Elem(), "$"); d != "" {
+				rec.Violation("merge", fmt.Sprintf("[%s] times written with %s (at %v) into a %s target: a time present in the data does not replace the old one whole: %s\n  bytes %s\n  got  %s\n  want %s", name, what, where, shape, d, hexHead(data), model.Show(got.Elem()), model.Show(want.Elem())), nil)
+				return
+			}
+			rec.Count("partial_time_decodes", 1)
+			rec.NonTrivial(core.Hash64("partial", name, shape, fmt.Sprint(idx, round)))
+		}
+	}
+}
+
 func c10Case(c *core.Ctx, idx int) {
+	if idx%13 == 6 && c.Lane != "race" {
+		c10PartialTimes(c, idx)
+		return
+	}
 	if idx%11 == 4 && c.Lane != "race" {
 		c10DupKeys(c, idx)
 		return
